@@ -766,7 +766,7 @@ impl RADAU {
                 singular_count = 0;
 
                 // Constrain new step size
-                hnew = hnew.abs().clamp(hmin, hmax) * posneg;
+                hnew = hnew.abs().max(hmin).min(hmax) * posneg;
 
                 // Prevent oscillations due to previous step rejections
                 if reject {
